@@ -164,7 +164,7 @@ def r19_3(ctx):
 def rules(ctx):
     from ..engine import only
     from . import c20
-    return [__import__('vjsx.rules.c16', fromlist=['x']).r16_9, __import__('vjsx.rules.c10', fromlist=['x']).field_ratchet('resolved emits must not depend on what was resolved before'), r19_1, r19_2, r19_3, c16.r16_1, c16.r16_2, c16.r16_3, c16.r16_11, c20.r20_5,
+    return [__import__('vjsx.rules.c16', fromlist=['x']).r16_9, __import__('vjsx.rules.c10', fromlist=['x']).field_ratchet('resolved emits must not depend on what was resolved before'), r19_1, r19_2, r19_3, c16.r16_1, c16.r16_2, c16.r16_3, c16.r16_11, c16.r16_12, c20.r20_5,
             only(c20.r20_2, lambda k: "recorded" in k or "define_component" in k or "specifier" in k, "the emits option is only produced for calls recognised as Vue's defineComponent; the record of that import must survive later imports")]
 
 
